@@ -74,6 +74,7 @@ type C12Env struct {
 	AheadDiffs []*state.IdentityStateDiff
 	// valid objects relative to the victim's head
 	Proposals []*types.BlockProposal // round H+1, with VRF proofs that pass the sortition
+	Txs       []*types.Transaction   // generated against head H, never submitted
 	Notes     []string
 }
 
@@ -162,6 +163,11 @@ func C12Build(o C12Options) (*C12Env, error) {
 		r.enter()
 		if ok, proof := r.Chain.GetProposerSortition(); ok {
 			e.Proposals = append(e.Proposals, r.Chain.ProposeBlock(proof))
+		}
+	}
+	for i := 0; i < 140; i++ {
+		if g := w.RandomTx(s.R, 15); g != nil && g.Tx != nil {
+			e.Txs = append(e.Txs, g.Tx)
 		}
 	}
 	// the world moves on without the victim
